@@ -2,112 +2,20 @@
 Bounded operation histories of the real MetaStore API from *symbolic balanced states*: the tile boundaries of the
 slot partition, all epochs and the probe slot are solver variables; shapes (tile ownership sequence, commit order,
 failover point) are enumerated by forking.  After every operation every served view is checked."""
-import itertools, z3
-from mirsym.values import *
-from props.broker import *
-
-
-def owner_shapes(halves, max_tiles_per_half):
-    """alternating owner sequences over `halves` halves, each half owning 1..max tiles"""
-    out = []
-    def rec(seq, counts):
-        if all(c >= 1 for c in counts): out.append(list(seq))
-        for h in range(halves):
-            if seq and seq[-1] == h: continue
-            if counts[h] >= max_tiles_per_half: continue
-            counts[h] += 1; seq.append(h); rec(seq, counts); seq.pop(); counts[h] -= 1
-    rec([], [0] * halves)
-    return out
-
-
-def scenario_scale(ctx, job):
-    chunks_from, chunks_to, shape, limits, with_failover = job['from'], job['to'], job['shape'], job['limits'], job['failover']
-    def run(e):
-        b = Broker(e); b.new_store()
-        need = max(chunks_from, chunks_to) * 2 + (1 if with_failover == 'spare' else 0)
-        per_host = (need + 1) // 2
-        b.add_proxies([per_host, need - per_host])
-        r = b.add_cluster(4 * chunks_from); assert r.variant == 0, r
-        b.symbolise_epochs()
-        b.symbolise_stable(shape)
-        b.symbolise_roles() if job.get('roles') else None
-        ops = 0
-        check_views(b, ctx, e, limits, 'initial')
-        if chunks_to > chunks_from:
-            r = b.op('auto_add_nodes', RStr('c1'), 4 * (chunks_to - chunks_from)); ops += 1
-            assert r.variant == 0, r
-            check_views(b, ctx, e, limits, 'auto_add_nodes')
-            r = b.op('migrate_slots', RStr('c1')); ops += 1
-            assert r.variant == 0, r
-        else:
-            r = b.op('migrate_slots_to_scale_down', RStr('c1'), 4 * chunks_to); ops += 1
-            assert r.variant == 0, r
-        check_views(b, ctx, e, limits, 'start-migration')
-        tasks = b.migration_tasks()
-        order = perms(len(tasks))[e.choose(len(perms(len(tasks))), 'commit-order')] if len(tasks) <= 3 else list(range(len(tasks)))
-        fail_at = None
-        if with_failover:
-            fail_at = e.choose(len(tasks) + 1, 'failover-point')
-            addrs = [a for ch in b.chunks() for a in [sval(x.v) for x in b.fld(ch, 'ChunkStore', 'proxy_addresses').v.f]]
-            victim = addrs[e.choose(len(addrs), 'victim')]
-        for k, ti in enumerate(order):
-            if fail_at == k:
-                b.op('replace_failed_proxy', RStr(victim), limits[-1]); ops += 1
-                check_views(b, ctx, e, limits, 'failover(%s)' % victim)
-                tasks = None
-            if tasks is None:
-                # migration metas were re-issued: a coordinator reads the tasks again
-                tasks2 = b.migration_tasks()
-                if not tasks2: break
-                t = tasks2[0]
-            else: t = tasks[ti]
-            r = b.op('commit_migration', t, bool(job.get('clear'))); ops += 1
-            if ctx.fresh_point(e): ctx.require(e, 'commit-accepted', r.variant == 0, key='C01/commit-rejected')
-            check_views(b, ctx, e, limits, 'commit#%d' % k)
-            # committing the same task again must be refused and change nothing visible
-            if job.get('recommit'):
-                r2 = b.op('commit_migration', clone(t), False); ops += 1
-                if ctx.fresh_point(e): ctx.require(e, 'second-commit-refused', r2.variant == 1, key='C01/second-commit-accepted')
-                check_views(b, ctx, e, limits[:1], 'recommit#%d' % k)
-        if fail_at == len(order) and with_failover:
-            b.op('replace_failed_proxy', RStr(victim), 0); ops += 1
-            check_views(b, ctx, e, limits, 'failover-after(%s)' % victim)
-        e.notes['ops'] = ops
-        return ops
-    name = 'scale %d->%d shape=%s failover=%s' % (chunks_from, chunks_to, shape, with_failover)
-    res = ctx.explore(name, run, time_limit=job.get('time_limit'))
-    ctx.ops += sum(p.value or 0 for p in res if p.kind == 'ok')
-    ctx.sample({'scenario': name, 'paths': len(res), 'path_condition_of_first': [str(c)[:160] for c in res[0].pc[:6]] if res else []})
+from props.scenarios import *
 
 
 def run(ctx):
-    import random
     quick = ctx.tier == 'quick'
-    rnd = random.Random(ctx.seed)
-    jobs = []
+    jobs = scale_jobs(ctx)
+    if quick:
+        # one source feeding several destinations, with a migration limit above 1
+        jobs.append({'from': 1, 'to': 3, 'shape': [0, 1], 'limits': (0, 2), 'failover': None, 'recommit': False})
     limits = (0, 1) if quick else (0, 1, 2)
-    for (a, bb) in ([(1, 2), (2, 1)] if quick else [(1, 2), (2, 1), (2, 3), (3, 2), (1, 3), (3, 1), (2, 4)]):
-        halves = 2 * a
-        maxt = 2 if (quick or a > 1) else 3
-        shapes = owner_shapes(halves, maxt)
-        if a >= 2: shapes = [s for s in shapes if len(s) <= halves + (1 if quick else 2)]
-        base = list(range(halves))
-        if quick and len(shapes) > 6:
-            rest = [s for s in shapes if s != base]
-            shapes = [base] + rnd.sample(rest, 5)
-        if not quick and len(shapes) > 40:
-            rest = [s for s in shapes if s != base]
-            shapes = [base] + rnd.sample(rest, 39)
-        for k, sh in enumerate(shapes):
-            jobs.append({'from': a, 'to': bb, 'shape': sh, 'limits': limits, 'failover': None, 'recommit': True})
-            if not quick or k < 2:
-                jobs.append({'from': a, 'to': bb, 'shape': sh, 'limits': limits, 'failover': 'nospare'})
-            if not quick and k < 8:
-                jobs.append({'from': a, 'to': bb, 'shape': sh, 'limits': limits, 'failover': 'spare', 'clear': True})
     ctx.bounds = {'slot_num': SLOT_NUM, 'resize_pairs': sorted(set((j['from'], j['to']) for j in jobs)),
-                  'max_tiles_per_half': 2 if quick else 3, 'migration_limits': list(limits), 'jobs': len(jobs),
-                  'symbolic': 'tile boundaries, global/cluster epochs, probe slot', 'enumerated': 'tile ownership sequence (sampled by VERIF_SEED beyond the base shape), commit order (<=3 tasks), failover point and victim'}
+                  'max_tiles_per_half': 2 if quick else 3, 'migration_limits': list(limits) + ([2] if quick else []), 'jobs': len(jobs),
+                  'symbolic': 'tile boundaries, global/cluster epochs, probe slot', 'enumerated': 'tile ownership sequence (sampled by VERIF_SEED beyond the base shape), commit order (<=3 tasks, else both extreme orders), failover point and victim'}
     ctx.assumptions += ['pre-states are balanced stable clusters (owning halves are a prefix, counts avg+[i<rem]); C10 checks that resizes end in this family',
                         'std containers/iterators/strings as modelled by mirsym (conformance suite)', 'global epoch < 2^63 (no wrap)']
-    ctx.not_explored += ['clusters with more than %d chunks' % (2 if quick else 4), 'HTTP layer of src/broker/service.rs', 'two simultaneous failovers']
-    ctx.run_parallel(jobs, scenario_scale)
+    ctx.not_explored += ['clusters with more than %d chunks' % (3 if quick else 4), 'HTTP layer of src/broker/service.rs', 'two simultaneous failovers']
+    ctx.run_parallel(jobs, lambda c, j: scale_scenario(c, j, ('partition',)))
